@@ -130,6 +130,9 @@ def reset_run_state():
     from . import seams
     seams.VCLOCK.reset()
     seams.REGEX.reset('pass')
+    seams.LOCKS.reset()
+    import linecache
+    linecache.clearcache()                # source-line lookups (traceback machinery) read files again: visible to the I/O seam
 
 
 class pristine_context:
